@@ -207,6 +207,12 @@ func (m *Machine) exec(st ast.Stmt, o *Outcome) []*Outcome {
 		return []*Outcome{o}
 	case *ast.DeclStmt:
 		return []*Outcome{o}
+	case *ast.ReturnStmt:
+		if m.inlineDepth > 0 && len(x.Results) == 0 {
+			o.Exit = "return"
+			return []*Outcome{o}
+		}
+		return undec("return")
 	case *ast.AssignStmt:
 		if len(x.Lhs) == 2 { // s, err := …
 			return []*Outcome{o}
@@ -299,6 +305,27 @@ func (m *Machine) exec(st ast.Stmt, o *Outcome) []*Outcome {
 		case "lex.newLines.Append":
 			ev("newline", types.ExprString(call.Args[0]))
 		default:
+			// a method of the scanner that is not part of the vocabulary: interpret its body in place
+			// (a helper extracted from the action code). Its statements must themselves be in the
+			// vocabulary, with the receiver called as in the action code.
+			if fd := m.helperDecl(call); fd != nil && m.inlineDepth < 3 {
+				ok := len(fd.Recv.List) == 1 && len(fd.Recv.List[0].Names) == 1 && fd.Recv.List[0].Names[0].Name == "lex"
+				if ok {
+					// parameters that stand for cursor expressions are not substituted: a helper that moves the
+					// cursor by a parameter is outside the vocabulary (lin fails on the parameter) and stays undecided
+					m.inlineDepth++
+					outs := m.execList(fd.Body.List, []*Outcome{o})
+					m.inlineDepth--
+					var res []*Outcome
+					for _, r := range outs {
+						if r.Exit == "return" {
+							r.Exit = ""
+						}
+						res = append(res, r)
+					}
+					return res
+				}
+			}
 			return undec("call of " + fn)
 		}
 		return []*Outcome{o}
@@ -534,4 +561,25 @@ func (m *Machine) FlowFrom(entry int) *Flow {
 	}
 	sort.Strings(f.Reach)
 	return f
+}
+
+
+// helperDecl: the declaration of the scanner method a call statement of the action code invokes.
+func (m *Machine) helperDecl(call *ast.CallExpr) *ast.FuncDecl {
+	se, ok := call.Fun.(*ast.SelectorExpr)
+	if !ok {
+		return nil
+	}
+	fn, _ := m.info().Uses[se.Sel].(*types.Func)
+	if fn == nil || fn.Pkg() != m.Pkg.Types {
+		return nil
+	}
+	for _, f := range m.Pkg.Syntax {
+		for _, d := range f.Decls {
+			if fd, ok := d.(*ast.FuncDecl); ok && fd.Body != nil && fd.Recv != nil && m.info().Defs[fd.Name] == fn {
+				return fd
+			}
+		}
+	}
+	return nil
 }
